@@ -77,9 +77,14 @@ Print Assumptions C01K_clamp_lo_gt_hi.
 Theorem C01K_clip_correct : forall x lo hi, lowered_clip x lo hi = jax_clip x lo hi.
 Proof. exact clip_correct. Qed.
 Print Assumptions C01K_clip_correct.
-Theorem C01K_relu_correct : forall x, lowered_relu x = jax_relu x.
+(* jax.nn.relu — the lowering of /repo since cc0a643: the Relu operator on signed types, Identity on unsigned ones *)
+Theorem C01K_relu_correct : forall sb x, in_int sb x -> lowered_relu sb x = jax_relu x.
 Proof. exact relu_correct. Qed.
 Print Assumptions C01K_relu_correct.
+(* history (fixed finding): before cc0a643 unsigned operands got Relu, which has no unsigned variant *)
+Theorem C01K_relu_unsigned_outside_onnx_domain : forall sb, is_signed sb = false -> ~ relu_dom sb.
+Proof. exact relu_unsigned_outside_onnx_domain. Qed.
+Print Assumptions C01K_relu_unsigned_outside_onnx_domain.
 Theorem C01K_relu6_correct : forall x, lowered_relu6 x = jax_relu6 x.
 Proof. exact relu6_correct. Qed.
 Print Assumptions C01K_relu6_correct.
@@ -425,7 +430,7 @@ Theorem C01K_clip_lifted : forall X Lo Hi u, bcommon [shape X; shape Lo; shape H
   teq (kev_t ke_clamp [zt X; zt Lo; zt Hi]) (zt (tmap3b jax_clip X Lo Hi)).
 Proof. exact clip_lifted. Qed.
 Print Assumptions C01K_clip_lifted.
-Theorem C01K_relu_lifted : forall X, teq (kev_t ke_relu [zt X]) (zt (tmap jax_relu X)).
+Theorem C01K_relu_lifted : forall sb X, tdom1 (in_int sb) X -> teq (kev_t (ke_relu sb) [zt X]) (zt (tmap jax_relu X)).
 Proof. exact relu_lifted. Qed.
 Print Assumptions C01K_relu_lifted.
 Theorem C01K_relu6_lifted : forall X, teq (kev_t ke_relu6 [zt X]) (zt (tmap jax_relu6 X)).
@@ -599,13 +604,12 @@ Theorem C01K_clip_op_lifted : forall X Lo Hi u, bcommon [shape X; shape Lo; shap
   teq (kev_t ke_clip_op [zt X; zt Lo; zt Hi]) (zt (tmap3b jax_clip X Lo Hi)).
 Proof. exact clip_op_lifted. Qed.
 Print Assumptions C01K_clip_op_lifted.
-Theorem C01K_jnp_power_constant_exponent_correct : forall sb x n, 0 < snd sb ->
+(* jnp.power / jnp.pow with a constant exponent 1..16 on integers (since ccb100d): the repeated-Mul graph of lowered_integer_pow,
+   C01K_integer_pow_correct; history: before ccb100d Pow, C01K_integer_pow_outside_onnx_domain *)
+Theorem C01K_jnp_power_prerepair_model_correct : forall sb x n, 0 < snd sb ->
   prerepair_integer_pow sb x n = jax_integer_pow sb x n.
 Proof. exact prerepair_integer_pow_correct. Qed.
-Print Assumptions C01K_jnp_power_constant_exponent_correct.
-Theorem C01K_relu_repaired_correct : forall sb x, in_int sb x -> repaired_relu sb x = jax_relu x.
-Proof. exact repaired_relu_correct. Qed.
-Print Assumptions C01K_relu_repaired_correct.
+Print Assumptions C01K_jnp_power_prerepair_model_correct.
 (* composition of kernel graphs (what tie (e) checks the real multi-equation exports against) *)
 Theorem C01K_composition_of_graphs : forall e args xs, kok (length args) e ->
   kev_s (ksubst e args) xs = kev_s e (map (fun a => kev_s a xs) args).
